@@ -102,6 +102,8 @@ type sqlGen struct {
 
 	intEnum, strEnum, smallEnum *Decl
 	usedDashComma               bool
+	otherFileID                 *Decl
+	otherFileTable              string
 	extEnum                     *Decl
 	extEnumVals                 []string
 	intEnumVals, strEnumVals    []string
@@ -421,24 +423,7 @@ func (g *sqlGen) column(name string, tableIdx int) (cs colSpec, crudOK bool) {
 			c.Kind, c.SQLType, c.Domain = "basic:int", basicSQL("int"), basicDomain("int")
 			break
 		}
-		if g.extEnum == nil {
-			under := g.pick("int", "string")
-			g.extEnum = &Decl{Name: "ExtTier", Pkg: g.sub, File: "types.go", Kind: DEnum, Under: Basic(under)}
-			vals := []string{"1", "4", "6"}
-			if under == "string" {
-				vals = []string{`"bronze"`, `"gold"`, `"silver"`}
-			}
-			blk := &ConstBlock{Grouped: true}
-			for i, v := range vals {
-				blk.Specs = append(blk.Specs, &Const{Names: []string{fmt.Sprintf("ExtTier%c", 'A'+i)}, Type: true, Value: v})
-			}
-			g.extEnum.Blocks = []*ConstBlock{blk}
-			g.sub.Decls = append(g.sub.Decls, g.extEnum)
-			g.extEnumVals = vals
-			if under == "string" {
-				g.extEnumVals = []string{"'bronze'", "'gold'", "'silver'"}
-			}
-		}
+		g.externEnum()
 		f.Type = Ref(g.extEnum)
 		c.Kind, c.SQLType, c.EnumVals = "enum:extern", basicSQL(g.extEnum.Under.Basic), g.extEnumVals
 		c.Check, c.Domain = "enum", "enum"
@@ -508,8 +493,36 @@ func (g *sqlGen) column(name string, tableIdx int) (cs colSpec, crudOK bool) {
 	c.GoType = f.Type.Go(g.root, map[string]bool{})
 	if g.pr(0.15) && c.Check != "json" {
 		f.Tag = fmt.Sprintf(`json:"%s"`, strings.ToLower(name))
+	} else if g.pr(0.12) {
+		// a tag of another library: columns are named after the Go field everywhere
+		f.Tag = fmt.Sprintf(`sql:"%s_col" db:"%s_db"`, strings.ToLower(name), strings.ToLower(name))
+		g.p.Feature("sql:field-with-foreign-sql-tag")
 	}
 	return colSpec{field: f, col: c}, crudOK
+}
+
+// externEnum declares (once) an enum in the sub-package.
+func (g *sqlGen) externEnum() *Decl {
+	if g.extEnum == nil {
+		under := g.pick("int", "string")
+		g.extEnum = &Decl{Name: "ExtTier", Pkg: g.sub, File: "types.go", Kind: DEnum, Under: Basic(under)}
+		vals := []string{"1", "4", "6"}
+		if under == "string" {
+			vals = []string{`"bronze"`, `"gold"`, `"silver"`}
+		}
+		blk := &ConstBlock{Grouped: true}
+		for i, v := range vals {
+			blk.Specs = append(blk.Specs, &Const{Names: []string{fmt.Sprintf("ExtTier%c", 'A'+i)}, Type: true, Value: v})
+		}
+		g.extEnum.Blocks = []*ConstBlock{blk}
+		g.sub.Decls = append(g.sub.Decls, g.extEnum)
+		g.extEnumVals = vals
+		if under == "string" {
+			g.extEnumVals = []string{"'bronze'", "'gold'", "'silver'"}
+		}
+		g.p.Feature("sql:enum-declared-in-the-sub-package")
+	}
+	return g.extEnum
 }
 
 // Tags2 returns the style tags of a declaration joined (helper for kinds).
@@ -552,6 +565,9 @@ func (g *sqlGen) payload() *Decl {
 		case 5:
 			return Ref(g.strEnum)
 		case 6:
+			if g.sub != nil && g.pr(0.5) {
+				return Ref(g.externEnum()) // an enum of the imported package inside a JSON document
+			}
 			return Std("time.Time")
 		case 7:
 			return Array(2+g.r.Intn(2), Basic(g.pick("int", "bool")))
@@ -588,6 +604,11 @@ func (g *sqlGen) payload() *Decl {
 		default: // mutual: type A []B ; type B map[string]A
 			b := g.addDecl(&Decl{Name: g.fresh(d.Name + "Level"), Kind: DNamed, Under: Map(Basic("string"), Ref(d))}, "models.go")
 			d.Under = Slice(Ref(b))
+		}
+		if g.pr(0.5) {
+			// a named container OF the recursive one: the cycle does not pass through the outer type
+			inner := d
+			d = g.addDecl(&Decl{Name: g.fresh(inner.Name + "Forest"), Kind: DNamed, Under: Map(Basic("string"), Slice(Ref(inner)))}, "models.go").Tag("container-of-self-recursive-container")
 		}
 	case 0, 1:
 		d = mkStruct("Payload").Tag("struct")
@@ -782,6 +803,21 @@ func (g *sqlGen) makePrimaryTable(i int) {
 			FK: &SQLFK{Target: "Outsider", TargetSQL: "outsiders", KeyType: "int64", ByTag: true}}})
 		g.p.Feature("sql:fk-to-undeclared-table")
 		t.truth.CrudOK = false // cannot be exercised against the schema (dangling reference)
+	}
+	// a foreign key, by ID type, to a table struct declared in ANOTHER file of the package
+	if g.pr(0.15) && !tiny {
+		if g.otherFileID == nil {
+			tn := g.fresh("PublishingHouse")
+			g.otherFileTable = tn
+			g.otherFileID = g.addDecl(&Decl{Name: g.fresh("Id" + tn), Kind: DNamed, Under: Basic("int64")}, "other.go")
+			g.addDecl(&Decl{Name: tn, Kind: DStruct, Fields: []*Field{{Name: "Id", Type: Ref(g.otherFileID)}, {Name: "Label", Type: Basic("string")}}}, "other.go")
+		}
+		fn := g.otherFileID.Name
+		f := &Field{Name: fn, Type: Ref(g.otherFileID)}
+		cols = append(cols, colSpec{field: f, col: SQLColumn{Field: fn, GoType: g.otherFileID.Name, Kind: "fk:table-in-other-file", SQLType: "integer", NotNull: true, Domain: "int32",
+			FK: &SQLFK{Target: g.otherFileTable, TargetSQL: SnakePlural(g.otherFileTable), KeyType: g.otherFileID.Name}}})
+		g.p.Feature("sql:fk-to-table-declared-in-another-file")
+		t.truth.CrudOK = false // the target table is not part of the generated schema
 	}
 	// guard
 	if g.pr(0.4) && !tiny {
@@ -1143,7 +1179,11 @@ func (g *sqlGen) addDirectives() {
 			}
 		}
 		for _, c := range cols {
-			if ph, lit, cm := g.enumPlaceholder(c, 1); ph != "" && g.pr(0.4) && len(cols) >= 2 {
+			idx := 1
+			if g.tableHint != "" && g.pr(0.6) {
+				idx = 0 // the string value spelled like the first table struct
+			}
+			if ph, lit, cm := g.enumPlaceholder(c, idx); ph != "" && g.pr(0.5) && len(cols) >= 2 {
 				other := cols[0]
 				if other.Field == c.Field {
 					other = cols[len(cols)-1]
